@@ -253,6 +253,8 @@ func propC10(w *World, r *Report) {
 	checkFDIndex(w, r)
 	checkFDEvery(w, r)
 	checkFreshResult(w, r, fns)
+	RunFullScan(w, r, fns)
+	r.Floor("fullscan", 4)
 	RunRangeCopy(w, r, w.LibFuncs())
 	RunControl(r, "rangecopy", "ctlRangeCopyBad", RunRangeCopy)
 	RunStaleCopy(w, r, w.LibFuncs())
